@@ -171,7 +171,7 @@ func CheckC17(c *Ctx) {
 	run := c.Run
 	c.resolveContainerFields()
 	run.Technique = "typed-AST lints with finite decision tables: ordering decisions in generic numeric code must use comparison operators (never the sign of a difference); Insert and search must route every ordering {<,=,>} consistently; every Ring index is reduced modulo the buffer length"
-	run.Explanation = "Conformance of Ring and Bst to the FIFO / multiset models under arbitrary histories is NOT decided. Three structural necessary conditions are: (1) no ordering decision on generic numeric values is taken from the sign of a difference (for integer element types the subtraction overflows: Bst[int8] holding -100 cannot find 100); (2) evaluated on the three orderings of (searched value, node value), Insert and searchNode send smaller keys to the same side, larger keys to the same side and searchNode stops on equality; (3) every index into Ring.buffer is begin/end or reduced modulo len(buffer), and begin/end advance only through nextIndex, whose body is (i+1) % len(buffer). Ring state invariant: `empty => begin == end` is established by NewRing and preserved on every path of every Ring method (each method's guarded commands, receiver fields as state); Put writes at end and Get/At read from begin, so an empty ring with different indices returns slots that were never filled. (4) Tree link discipline: every store into a child link, the root or the value of an existing node in package helper is classified as attach (new node into a link that is nil on that path), splice (the link pointed at N, receives a child of N, and N's other child is nil: only N leaves the tree) or replace (value of the in-order neighbour, which is itself spliced out with the parent its search loop returned) and justified on the finite table of truth assignments to the pointer comparisons the function makes; the (node, parent) search loops are verified to record parent = node before every step."
+	run.Explanation = "Conformance of Ring and Bst to the FIFO / multiset models under arbitrary histories is NOT decided. Three structural necessary conditions are: (1) no ordering decision on generic numeric values is taken from the sign of a difference (for integer element types the subtraction overflows: Bst[int8] holding -100 cannot find 100); (2) evaluated on the three orderings of (searched value, node value), Insert and searchNode send smaller keys to the same side, larger keys to the same side and searchNode stops on equality; (3) every index into Ring.buffer is begin/end or reduced modulo len(buffer), and begin/end advance only through nextIndex, whose body is (i+1) % len(buffer). Ring state invariant: `empty => begin == end` is established by NewRing and preserved on every path of every Ring method (each method's guarded commands, receiver fields as state); Put writes at end and Get/At read from begin, so an empty ring with different indices returns slots that were never filled. (4) Tree link discipline: the functions of package helper that store into tree links are interpreted path by path over symbolic node names (a variable holds an access path such as n.right, b.root or the results of a verified (node, parent) search loop; unexported non-recursive callees are inlined with their arguments; a loop is entered once from an arbitrary state of the variables it assigns; conditions become propositional facts over equalities of access paths). Every store into a child link, the root or the value of an existing node is an attach (new node into a link that is nil in every truth assignment the facts of the path allow), a splice (the link pointed at N, receives a child of N, and N's other child is nil: only N leaves the tree) or a replace (value of the in-order neighbour found by a verified search below N, which is itself spliced out on the same path); a recursive splicing function is analysed under the precondition that the root or one of the parent's links points at the node, which every call has to establish. The verdict does not depend on how the code is cut into helpers, on recursion versus re-assignment of (node, parent), or on pointer-to-link variables."
 	run.Trusted = []string{"go/types", "finite ordering domain {<,=,>} (values are only compared)"}
 	hp := c.P.Pkg("helper")
 	if hp == nil {
@@ -453,10 +453,24 @@ func (c *Ctx) ringDiscipline(info *types.Info) {
 		sel, ok := call.Args[0].(*ast.SelectorExpr)
 		return ok && sel.Sel.Name == ringF.buf
 	}
-	isModLen := func(e ast.Expr) bool {
-		if p, ok := e.(*ast.ParenExpr); ok {
-			e = p.X
+	// expand: calls of unexported single-expression helpers of the package are replaced by what they return
+	expand := func(e ast.Expr) ast.Expr {
+		for i := 0; i < 3; i++ {
+			e = ast.Unparen(e)
+			call, ok := e.(*ast.CallExpr)
+			if !ok {
+				break
+			}
+			in := c.inlineSingleReturn(info, call)
+			if in == nil {
+				break
+			}
+			e = in
 		}
+		return e
+	}
+	isModLen := func(e ast.Expr) bool {
+		e = expand(e)
 		be, ok := e.(*ast.BinaryExpr)
 		return ok && be.Op == token.REM && isLenBuffer(be.Y)
 	}
@@ -465,14 +479,8 @@ func (c *Ctx) ringDiscipline(info *types.Info) {
 	if len(next.Decl.Body.List) == 1 {
 		if r, ok := next.Decl.Body.List[0].(*ast.ReturnStmt); ok && len(r.Results) == 1 {
 			if isModLen(r.Results[0]) {
-				be := r.Results[0]
-				if p, ok := be.(*ast.ParenExpr); ok {
-					be = p.X
-				}
-				lhs := be.(*ast.BinaryExpr).X
-				if p, ok := lhs.(*ast.ParenExpr); ok {
-					lhs = p.X
-				}
+				be := expand(r.Results[0])
+				lhs := ast.Unparen(be.(*ast.BinaryExpr).X)
 				if add, ok := lhs.(*ast.BinaryExpr); ok && add.Op == token.ADD {
 					if v, ok := constInt(info, add.Y); ok && v == 1 {
 						okNext = true
@@ -533,7 +541,7 @@ func (c *Ctx) ringDiscipline(info *types.Info) {
 		})
 	}
 	run.Count("ring_index_sites", nIdx)
-	run.Floor("ring_index_sites", 4)
+	run.Floor("ring_index_sites", 3)
 }
 
 // ringInvariant: `empty => begin == end` is established by NewRing and preserved by every method
